@@ -223,7 +223,7 @@ def same_text_nested(nodes, inherited=()):
 class Shadow(Statements):
     name = "shadow"
     examples = {"quick": 500, "thorough": 15000}
-    floors = {"same_text_nested": 0.2}
+    floors = {"same_text_nested": 0.15}
 
     def strategy(self, tier):
         return shadow_templates(3 if tier == "quick" else 4)
